@@ -173,6 +173,8 @@ def model_check(cx, module, cfg=None, consts=None, workers=1, timeout=1800, expe
 
 
 def _send_key(step):
+    if isinstance(step, dict) and "act" in step:
+        return "%s/%s" % (step.get("a", step.get("c", "")), step.get("act"))   # a schedule step: actor and action
     m = step.get("m", {}) if isinstance(step, dict) else {}
     if not isinstance(m, dict):
         return "?"
